@@ -86,6 +86,8 @@ def resolve_layout(script, t0, placements, final, eps):
             xs = [b_ + p["mult"] * eps]
         elif p["kind"] == "multi":
             xs = [a + (b_ - a) * (i + 1) / (p["n"] + 1) for i in range(p["n"])]
+        elif p["kind"] == "coincide":
+            xs = [b_, b_ + 0.5 * eps]
         else:
             xs = [b_ + p["side"] * p["delta_rel"] * (b_ - a)]
         for x in xs:
@@ -101,7 +103,7 @@ def resolve_layout(script, t0, placements, final, eps):
         h = accs[ends.index(near)]
         if classes[x] != "near_miss" and eps * 1.001 < dist < 1e-3 * h:
             continue
-        if keep and abs(x - keep[-1]) < 1e-3 * h and classes[x] != "near_miss":
+        if keep and abs(x - keep[-1]) < 1e-3 * h and classes[x] not in ("near_miss", "coincide"):
             continue
         keep.append(x)
     return [float(t0)] + keep + [float(T)], float(T), clip, {x: classes[x] for x in keep}
